@@ -2,7 +2,7 @@
 #pragma once
 namespace vs
 {
-constexpr int N_TYPED_SITES = 44;
+constexpr int N_TYPED_SITES = 47;
 
 inline std::string typed_sanitize(std::string const& s)
 {
@@ -667,6 +667,52 @@ void VM<FO>::do_log_typed(int tid, int opi, Op const& op)
     uint64_t a = u64();
     int b = static_cast<int>(i64());
     VS_TSITE(true, "{:#x} {:#b} {:o} {:c}", a, static_cast<uint8_t>(b), static_cast<uint32_t>(b), static_cast<char>('A' + (b & 15)));
+    break;
+  }
+  case 44:
+  {
+    // many string values in one statement (more than the size cache's twelve inline slots — which strings must not use)
+    std::vector<std::string> v(static_cast<size_t>(r.range(13, 20)));
+    for (auto& e : v)
+    {
+      e = typed_str(r, 6, 1);
+    }
+    VS_TSITE(true, "{}", v);
+    for (auto& e : v)
+    {
+      e.assign(e.size(), '!');
+    }
+    v.clear();
+    break;
+  }
+  case 45:
+  {
+    std::array<std::string, 10> a;
+    for (auto& e : a)
+    {
+      e = typed_str(r, 5, 1);
+    }
+    std::string c1 = typed_str(r, 6, 0), c2 = typed_str(r, 6, 1), c3 = typed_str(r, 6, 0), c4 = typed_str(r, 6, 1);
+    VS_TSITE(true, "{} {} {} {} {}", c1.c_str(), c2.c_str(), a, c3.c_str(), c4.c_str());
+    for (auto& e : a)
+    {
+      e.assign(e.size(), '!');
+    }
+    break;
+  }
+  case 46:
+  {
+    std::string v[13];
+    for (auto& e : v)
+    {
+      e = typed_str(r, 8, sflav == 2 ? 0 : 1);
+    }
+    VS_TSITE(true, "{} {} {} {} {} {} {} {} {} {} {} {} {}", v[0], v[1], std::string_view{v[2]}, v[3], v[4], std::string_view{v[5]}, v[6],
+             v[7], v[8], std::string_view{v[9]}, v[10], v[11], v[12]);
+    for (auto& e : v)
+    {
+      e.assign(e.size(), '!');
+    }
     break;
   }
   default:
